@@ -60,7 +60,6 @@ def respTok : Resp → String
   | .pending => "pend"
   | .ended => "end"
   | .noWatcher => "now"
-  | .panic => "panic"
 
 def respOf : String → Option Resp
   | "ok" => some .done
@@ -87,7 +86,7 @@ def firstBroken (h : Hist) : List Ev → Option String
 
 def handleSeq (ops : List Op) (obs : List String) : String × String :=
   let rs := Health.run Health.init ops
-  let model := if rs.contains .panic then "panic" else String.intercalate " " (rs.map respTok)
+  let model := String.intercalate " " (rs.map respTok)
   let verdict :=
     if obs == ["panic"] then "fail:panic"
     else match obs.mapM respOf with
